@@ -180,7 +180,9 @@ def threaded_case(draw, tier="quick"):
     chain = draw(st.lists(st.sampled_from(["map", "filter_true", "slice_all", "rate_limit0",
                                            "partition1", "sliding1", "union"]), max_size=3))
     n = draw(st.integers(1, 3))
-    return {"chain": chain, "n": n, "grace": 0.03}
+    # bridge: a first graph forwards into the tested one from `bridge` branches with the usual
+    # sink(other.emit) idiom (nested emits on the loop thread)
+    return {"chain": chain, "n": n, "grace": 0.03, "bridge": draw(st.sampled_from([0, 0, 1, 2]))}
 
 
 def execute_threaded(case):
@@ -224,44 +226,71 @@ def execute_threaded(case):
         keep.append(node)
     sk = node.sink(consumer)
     keep.append(sk)
+    entry = s
+    per_emit = 1
+    bridges = []
+    if case.get("bridge"):
+        entry = Stream(asynchronous=False)
+        per_emit = case["bridge"]
+        for b in range(case["bridge"]):
+            br = entry.map(identity) if b % 2 == 0 else entry
+            bridges.append(br.sink(s.emit))
+        keep.append(entry)
     loop = s.loop
     v = []
     for k in range(case["n"]):
         def worker(k=k):
             add("call", k)
             try:
-                s.emit(k)
+                entry.emit(k)
             finally:
                 add("ret", k)
         t = threading.Thread(target=worker, daemon=True)
         t.start()
-        # wait until the consumer was reached, then give an early return the chance to show
+        want = (k + 1) * per_emit
+        done = k * per_emit
         t0 = _time.time()
-        while _time.time() - t0 < 5 and len(futs) <= k and t.is_alive():
-            _time.sleep(0.001)
-        _time.sleep(case["grace"])
-        if len(futs) <= k:
-            sk.destroy()
-            return Result([("C03:threaded:consumer-not-reached", str(case))])
-        add("cf", k)
-        loop.add_callback(futs[k].set_result, None)
+        stuck = False
+        # consumers are reached one after the other (each branch forwards in turn): finish each
+        # as it appears, after giving an early return the chance to show
+        while done < want:
+            while _time.time() - t0 < 5 and len(futs) <= done and t.is_alive():
+                _time.sleep(0.001)
+            if len(futs) <= done:
+                stuck = True
+                break
+            _time.sleep(case["grace"])
+            add("cf", k, done)
+            loop.add_callback(futs[done].set_result, None)
+            done += 1
+            t0 = _time.time()
+        if stuck:
+            for sk_ in [sk] + bridges:
+                sk_.destroy()
+            what = "deadlock" if t.is_alive() else "consumer-not-reached"
+            return Result([("C03:threaded:%s" % what, "emit %d: %d of %d consumer calls happened, "
+                            "emit thread alive=%s: %s" % (k, len(futs), want, t.is_alive(), case))],
+                          nontrivial=True)
         t.join(10)
         if t.is_alive():
             v.append(("C03:threaded:deadlock", "blocking emit never returned: %s" % case))
             break
-    sk.destroy()
+    for sk_ in [sk] + bridges:
+        sk_.destroy()
     with lock:
         order = [e for e in events if e[0] in ("ret", "cf")]
     for k in range(case["n"]):
-        if ("ret", k) in order and ("cf", k) in order and \
-                order.index(("ret", k)) < order.index(("cf", k)):
+        rets = [i for i, e in enumerate(order) if e == ("ret", k)]
+        cfs = [i for i, e in enumerate(order) if e[0] == "cf" and e[1] == k]
+        if rets and cfs and rets[0] < max(cfs):
             culprit = [c for c in case["chain"] if c.startswith("slice")] or case["chain"] or ["sink"]
             v.append(("C03:threaded:early-return:via-%s" % "+".join(sorted(set(culprit))),
                       "blocking emit(%d) returned before the consumer finished" % k))
             break
-    return Result(v, nontrivial=True, classes=["threaded"] + ["chain:" + c for c in case["chain"]])
+    return Result(v, nontrivial=True, classes=["threaded", "bridge:%d" % case.get("bridge", 0)] +
+                  ["chain:" + c for c in case["chain"]])
 
 
 PARTS = [Part("schedules", case_strategy, execute, quick=1600, thorough=8000),
-         Part("threaded", threaded_case, execute_threaded, quick=25, thorough=60, shards=4,
-              shrink_quick=False)]
+         Part("threaded", threaded_case, execute_threaded, quick=32, thorough=80, shards=4,
+              shrink_quick=False, quick_shards=4)]
